@@ -185,6 +185,9 @@ func cliMake(args []string) int {
 			case gsgpkg.Polygon:
 				t.rows[i].g = rdPolygon(rng, pix, out)
 				c.Outside = c.Outside || out
+				if !out && rng.Intn(12) == 0 {
+					t.rows[i].g = geom.Polygon{} // POLYGON EMPTY: the library returns nothing for it, so the feature is omitted
+				}
 			case gsgpkg.MultiPolygon:
 				mp := geom.MultiPolygon{}
 				for k := 0; k < 1+rng.Intn(3); k++ {
@@ -193,6 +196,8 @@ func cliMake(args []string) int {
 				if out {
 					mp = append(mp, rdPolygon(rng, pix, true))
 					c.Outside = true
+				} else if rng.Intn(12) == 0 {
+					mp = geom.MultiPolygon{} // MULTIPOLYGON EMPTY
 				}
 				t.rows[i].g = mp
 			}
